@@ -10,7 +10,7 @@ in tableschema / tabulator and in `itertools.islice(.., SAMPLE_SIZE)` and is mea
 """
 from contracts.common import Item
 from contracts import streams as S, dumpers as DM, natives as N, base as BA
-from contracts import C17 as K17, C15 as K15, C14 as K14, C10 as K10
+from contracts import C17 as K17, C15 as K15, C14 as K14, C10 as K10, C13 as K13
 
 TRUSTED = ['T1 pyvc model of Python (DESIGN 3)', 'T15 tabulator / tableschema iterate lazily apart from their sample', 'T16 z3 / cvc5']
 ASSUMPTIONS = ['buffering steps (sort_rows, join, duplicate replay, deduplicate key set) are outside the property\'s class',
@@ -38,5 +38,10 @@ ITEMS = [
     Item('FileDumper.rows_processor', DM.sym_rows_processor, [], DM.D + 'file_dumper.py::FileDumper.rows_processor'),
     Item('iterable_storage.describe', BA.sym_iterable_storage, [], 'dataflows/helpers/iterable_loader.py::iterable_storage.describe'),
     Item('LazyIterator+get_iterator', BA.sym_get_iterator, [], BA.B + 'datastream_processor.py::DataStreamProcessor.get_iterator'),
+    # building the chain runs nothing (a first-run checkpoint is the steps + stream + notify, whatever an earlier run left behind)
+    Item('checkpoint', S.sym_checkpoint, [], 'dataflows/processors/checkpoint.py::checkpoint._preprocess_chain'),
+    Item('load.limiter', K13.sym_limiter, [], 'dataflows/processors/load.py::load.limiter'),
+    Item('load.stringer', K13.sym_stringer, [], 'dataflows/processors/load.py::load.stringer'),
+    Item('load.stripper', K13.sym_stripper, [], 'dataflows/processors/load.py::load.stripper'),
     Item('pipelines', None, [('look-ahead', N.nat_lookahead)], None),
 ]
